@@ -1155,6 +1155,15 @@ func (c *control) dirR(colon, at bool, params []any) {
 	if len(c.args) <= c.argPos {
 		slip.ErrorPanic(c.scope, 0, "missing argument for Radix directive at %d of %q", c.pos, c.str)
 	}
+	if 0 < len(params) && params[0] != nil {
+		// ~radix,mincol,padchar,commachar,comma-intervalR
+		radix := c.getIntParam(0, params, 10, true)
+		if radix < 2 || 36 < radix {
+			slip.ErrorPanic(c.scope, 0, "radix must be between 2 and 36 at %d of %q", c.pos, c.str)
+		}
+		c.dirInt(colon, at, params[1:], radix)
+		return
+	}
 	var (
 		digits []byte
 		words  []string
